@@ -274,7 +274,47 @@ ENVELOPE = [
 
 KINDS = ("none", "in_trunc", "in_eio", "in_missing", "out_err", "refine", "timeout",
          "worker", "git", "opt_unknown", "opt_invalid", "opt_inconsistent", "envelope",
-         "in_corrupt")
+         "in_corrupt", "opt_combo")
+
+# opt_combo: no fault, but documented options in combination.  The fragments are all
+# legal on their own; a combination may be refused (several are: bxkappa, shiftedmetric
+# False, x-y derivative curvature on a non-orthogonal grid) but what is written must be
+# valid.  Case i of the kind uses pair i of the 15 pairs, sometimes with a third.
+COMBO = ("nonorth", "smoothnl", "curv", "guards", "workers", "interp")
+COMBO_PAIRS = [(a, b) for ia, a in enumerate(COMBO) for b in COMBO[ia + 1:]]
+
+
+def apply_combo(rng, case, frags):
+    o = case["options"]
+    circ = case["entry"] in ("circular", "api-circ")
+    for fr in frags:
+        if fr == "nonorth":
+            o["orthogonal"] = False
+            if circ:
+                o.update({"ny": rng.choice((6, 8)),
+                          "nonorthogonal_spacing_method": "poloidal_orthogonal_combined",
+                          "nonorthogonal_xpoint_poloidal_spacing_length":
+                              rng.choice((0.8, 1.0)),
+                          "nonorthogonal_xpoint_poloidal_spacing_range": 0.05})
+                if "curv" not in frags:
+                    o.pop("curvature_type", None)
+            elif case["geometry"] in ("lsn", "usn"):
+                # the example's orthogonal spacings are refused for non-orthogonal
+                # single nulls; hypnotoad's own defaults generate
+                o.pop("target_all_poloidal_spacing_length", None)
+                o.pop("xpoint_poloidal_spacing_length", None)
+        elif fr == "smoothnl":
+            o["curvature_smoothing"] = "smoothnl"
+        elif fr == "curv":
+            o["curvature_type"] = rng.choice(("curl(b/B)", "curl(b/B) with x-y derivatives",
+                                              "bxkappa"))
+        elif fr == "guards":
+            o["y_boundary_guards"] = rng.choice((0, 2, 3))
+        elif fr == "workers":
+            case["np"] = rng.choice((2, 3))
+        elif fr == "interp" and not circ:
+            o["psi_interpolation_method"] = "dct"
+    return case
 
 # a damaged stored input: one numeric field of the geqdsk text replaced by what equilibrium
 # codes and failing disks put there (the property asks for raise-or-valid, nothing more)
@@ -341,6 +381,25 @@ def torpex_case(rng, key):
     return case
 
 
+def combo_case(rng, key, i):
+    """Case i of the opt_combo kind: pair i of COMBO_PAIRS (+ a third fragment at times),
+    circular geometry two times in three (cheap), single nulls otherwise."""
+    entry = ("circular", "api-circ", "geqdsk", "api-circ", "circular", "api-tok")[
+        (i + i // len(COMBO_PAIRS)) % 6]
+    case = make_case(rng, key, kind="opt_combo", entry=entry,
+                     geom=rng.choice(("lsn", "usn", "lsn", "cdn")))
+    frags = list(COMBO_PAIRS[i % len(COMBO_PAIRS)])
+    if rng.random() < 0.3:
+        extra = rng.choice(COMBO)
+        if extra not in frags:
+            frags.append(extra)
+    if "interp" in frags and case["geometry"] not in (None, "lsn", "usn"):
+        case["geometry"] = "lsn"  # the double nulls of this workload are refused with dct
+        case["options"] = workloads.tok_options("lsn", y_boundary_guards=rng.choice((0, 1)))
+    case["fault"]["combo"] = frags
+    return apply_combo(rng, case, frags)
+
+
 def make_case(rng, key, kind=None, entry=None, geom=None):
     kind = kind or rng.choice(KINDS)
     if entry is None:
@@ -386,6 +445,8 @@ def make_case(rng, key, kind=None, entry=None, geom=None):
             case["np"] = rng.choice((2, 3))
     elif kind == "git":
         f.update({"git": rng.choice(("dirty", "diff_fails", "no_git"))})
+    elif kind == "opt_combo":
+        pass  # the fragments are chosen by the caller's stratification (combo_case)
     elif kind == "opt_unknown":
         f.update({"extra": dict(rng.choice(OPT_UNKNOWN))})
     elif kind == "opt_invalid":
